@@ -3,9 +3,12 @@
    Balance addon: the estimator's two points lie on the caller's ground plane, the centre of mass sits at the
    reported height above its projection, the foot placement point at h tan(phi) along u, u perpendicular to k;
    the per-body term of the whole-body inertia is the parallel-axis expression of the library.
-   Mass, CoM, momenta and energies are decided by the L3 oracle (sums over bodies of the definitions). *)
+   Total mass: the value returned by CalcCenterOfMass is the sum of the body masses for every tree and workspace.
+   Centre of mass (flag cleared after the position update): mass x com = sum of the bodies' first moments in base
+   coordinates, which for a body (m, c, Ic) is m x (base position of c).
+   CoM, momenta and energies are decided by the L3 oracle (sums over bodies of the definitions). *)
 From Coq Require Import List.
-From RV Require Import Scalar LinAlg3 Spatial Laws ListArr ModelDef JointDef UtilDef UtilThm BalDef BalThm.
+From RV Require Import Scalar LinAlg3 Spatial Laws ListArr ModelDef JointDef KinDef UtilDef UtilThm BalDef BalThm C14Thm ComThm.
 Section P.
   Context {T : Type} (O : Ops T) {FL : FieldLaws O}.
   Theorem C12_zmp_on_contact_plane (normal point n0 f : V3 T) : v3dot O normal f <> o0 O ->
@@ -36,6 +39,24 @@ Section P.
     rbi_about O (st_applyT_rbi O X (rbi_from_mci O m c Ic)) P =
     m3add O (m3mul O (m3mul O (m3T (stE X)) Ic) (stE X)) (m3scale O m (m3mul O (v3crossm O d) (m3T (v3crossm O d)))).
   Proof. exact (rbi_about_parallel_axis O m c Ic X P). Qed.
+  Theorem C12_total_mass_is_sum_of_body_masses (M : @Model T) (w : @WS T) q qd qdd b : WF M ->
+    length (wIc w) = nbodies M ->
+    c_mass (snd (calc_center_of_mass O M w q qd qdd b)) = bsum O (fun j => rm (getI O M j)) (nbodies M).
+  Proof. intros W. exact (center_of_mass_total_mass O M W w q qd qdd b). Qed.
+  Theorem C12_center_of_mass_is_mass_weighted_mean (M : @Model T) (w0 : @WS T) q qd qdd : WF M ->
+    ws_len w0 (nbodies M) ->
+    let w := ukc_q O M w0 q in
+    let C := snd (calc_center_of_mass O M w q qd qdd false) in
+    c_mass C <> o0 O ->
+    omul O (c_mass C) (vx (c_com C)) = bsum O (fun j => vx (mom O (gXb O w j) (getI O M j))) (nbodies M) /\
+    omul O (c_mass C) (vy (c_com C)) = bsum O (fun j => vy (mom O (gXb O w j) (getI O M j))) (nbodies M) /\
+    omul O (c_mass C) (vz (c_com C)) = bsum O (fun j => vz (mom O (gXb O w j) (getI O M j))) (nbodies M).
+  Proof. intros W. exact (center_of_mass_is_mass_weighted_mean O M W w0 q qd qdd). Qed.
+  Theorem C12_first_moment_of_a_body (X : ST T) m c Ic :
+    mom O X (rbi_from_mci O m c Ic) = v3scale O m (v3add O (str X) (m3Tv O (stE X) c)).
+  Proof. exact (mom_of_mci O X m c Ic). Qed.
 End P.
 Print Assumptions C12_zmp_on_contact_plane. Print Assumptions C12_zmp_no_tangential_moment. Print Assumptions C12_zmp_unique.
 Print Assumptions C12_foot_placement_geometry. Print Assumptions C12_whole_body_inertia_term_is_parallel_axis.
+Print Assumptions C12_total_mass_is_sum_of_body_masses.
+Print Assumptions C12_center_of_mass_is_mass_weighted_mean. Print Assumptions C12_first_moment_of_a_body.
